@@ -36,9 +36,11 @@ RULE = (
 )
 ASSUMPTIONS = ["Python tuple comparison is 'lexicographic order on the pair'", "pydantic's ValidationError is the validation error meant by the property"]
 
-PFX = ["a", "A", "", "é", "a.b", "x y", "GO", "go", " p", "ab", "#hashtag", "#", "e\u0301", "\ufeffa"]
+# (prefixes and identifiers that together look wrapped - "[x" + "y]" prints as the W3C "safe CURIE" [x:y], "<x" + "y>"
+#  as an IRI reference, quotes, parentheses: characters like any other, seed C15-P)
+PFX = ["a", "A", "", "é", "a.b", "x y", "GO", "go", " p", "ab", "#hashtag", "#", "e\u0301", "\ufeffa", "[x", "[", "[[a", "<x", "(x", '"x', "'x", "{x"]
 IDS = ["", "1", "a:b", ":", "é", "a\tb", 'q"z', "a\nb", "a\rb", " s ", "0001", "a\r\nb", "::", "x:", '"', "\\", "1 ",
-       "line 1\n# line 2", "#x", "e\u0301", "a%20b"]
+       "line 1\n# line 2", "#x", "e\u0301", "a%20b", "y]", "]", "b:c]]", "y>", "y)", 'y"', "y'", "y}"]
 NAMES = [None, "n", "m", "", "é\n"]
 
 
